@@ -68,14 +68,15 @@ Definition asym_matches (key : bytes) (ap : asym_pad) (c : prim_call) : bool :=
   end.
 
 (* encrypt: parameters, message, observed outcome, observed call, returned iv, returned tag length, ciphertext length.
-   asym_ok: for RSA, whether the library's encrypt() accepted the message length (observed independently). *)
+   asym_ok: for RSA, whether the library's encrypt()/decrypt() accepts (padding, hash, message / cipher text) -
+   observed independently on the reference path; a refusal is CryptographicFailure since fix 2eb33d4. *)
 Definition check_encrypt (p : enc_params) (msg : bytes) (o : outcome) (c : prim_call)
            (iv_ret : option bytes) (taglen : option Z) (ctlen : Z) (asym_ok : bool) : bool :=
   match encrypt_plan p with
   | Err e => outcome_eqb o (OErr e)
   | Ok (CAsym key ap) =>
       if asym_ok then outcome_eqb o ODone && asym_matches key ap c
-      else outcome_eqb o OCrash
+      else outcome_eqb o (OErr CryptographicFailure)      (* fix 2eb33d4: the RSA backend's refusal *)
   | Ok (CSym sp) =>
       match lib_sym_stage false sp (zlen msg) with
       | LOk =>
@@ -97,7 +98,7 @@ Definition check_decrypt (p : enc_params) (ct : bytes) (o : outcome) (c : prim_c
   | Err e => outcome_eqb o (OErr e)
   | Ok (CAsym key ap) =>
       if asym_ok then outcome_eqb o ODone && asym_matches key ap c
-      else outcome_eqb o OCrash
+      else outcome_eqb o (OErr CryptographicFailure)      (* fix 2eb33d4: the RSA backend's refusal *)
   | Ok (CSym sp) =>
       match lib_sym_stage true sp (zlen ct) with
       | LOk =>
@@ -181,7 +182,8 @@ Definition check_derive (p : der_params) (o : outcome) (c : prim_call) (outlen :
   | Ok dp =>
       match dp with
       | DEncrypt (CAsym _ _) =>
-          if asym_ok then outcome_eqb o ODone && der_call_matches dp (d_data p) c else outcome_eqb o OCrash
+          if asym_ok then outcome_eqb o ODone && der_call_matches dp (d_data p) c
+          else outcome_eqb o (OErr CryptographicFailure)
       | _ =>
           match lib_der_stage dp (olen (d_data p)) with
           | LOk => outcome_eqb o ODone && der_call_matches dp (d_data p) c &&
